@@ -96,7 +96,7 @@ def gen_file_spec(tape, label="file", kinds=None):
         spec["intensity"] = tape.chance(1, 3, f"{label}.intensity")
     elif kind == "dada_stokes":
         spec["nchan"] = [8, 4, 5][tape.draw(3, f"{label}.nchan")]
-        spec["bw"] = [-2000.0, 2000.0, -16.0][tape.draw(3, f"{label}.bw")]
+        spec["bw"] = [-2000.0, 2000.0, -16.0, 0.5][tape.draw(4, f"{label}.bw")]
         spec["sr_khz"] = [1.0, 7.62939453125][tape.draw(2, f"{label}.sr")]
     elif kind == "guppi":
         spec["nchan"] = [4, 2, 3][tape.draw(3, f"{label}.nchan")]
